@@ -345,9 +345,130 @@ func c01EnumPrefix(tier string, i int) []uint64 {
 	return []uint64{3, uint64(idx), uint64(off)}
 }
 
+// c01Alone is what one independent user of the lexer and parser gets.
+type c01Alone struct {
+	tokens string
+	parse  string
+}
+
+func c01Use(src []byte, entryNo int, c *worker.Ctx) (out c01Alone) {
+	lo := runLex(src, simio.Plan{Chunk: "all", Terminal: "eof"}, c)
+	var b strings.Builder
+	for _, t := range lo.tokens {
+		fmt.Fprintf(&b, "%s|%s|%d:%d\n", t.Type, t.Literal, t.Line, t.Position)
+	}
+	if lo.panicV != nil {
+		fmt.Fprintf(&b, "panic: %v", lo.panicV)
+	}
+	out.tokens = b.String() + lo.spin
+	po := runEntry(entries[entryNo], src, simio.Plan{Chunk: "all", Terminal: "eof"}, c)
+	switch po.class() {
+	case "tree":
+		out.parse = "tree: " + po.rendered
+	case "error":
+		out.parse = "error: " + po.err.Error()
+	case "panic":
+		out.parse = fmt.Sprintf("panic: %v at %s", po.panicV, po.stack)
+	default:
+		out.parse = "spin: " + po.spin
+	}
+	return
+}
+
+// runC01Interleaved: two to four independent users lex and parse different
+// sources, preempted inside the lexer's and parser's loops. Every one of them
+// must get exactly what it gets alone.
+func runC01Interleaved(c *worker.Ctx) {
+	res := c.Res
+	n := 2 + c.T.Draw(3)
+	var srcs []c01Source
+	var ents []int
+	for i := 0; i < n; i++ {
+		s := c01DrawSource(c)
+		if len(s.text) > 1500 {
+			s.text = s.text[:1500]
+		}
+		if c.T.Bool(1, 3) {
+			s.text, _ = tokenMutation(c, s.text)
+		}
+		srcs = append(srcs, s)
+		ents = append(ents, c.T.Draw(len(entries)))
+	}
+	alone := make([]c01Alone, n)
+	for i := range srcs {
+		alone[i] = c01Use(srcs[i].text, ents[i], c)
+	}
+	every := []int{1, 1, 3, 17, 101}[c.T.Draw(5)]
+	got := make([]c01Alone, n)
+	var tasks []*coTask
+	for i := range srcs {
+		i := i
+		tasks = append(tasks, &coTask{name: fmt.Sprintf("user-%d", i), fn: func() { got[i] = c01Use(srcs[i].text, ents[i], c) }})
+	}
+	s := runInterleaved(c.T, every, tasks)
+	c.Logf("interleaved %s every=%d", s, every)
+	res.Sig = fmt.Sprintf("il|%d|%d|%x", n, every, hash32([]byte(alone[0].tokens)))
+	res.Nontrivial = s.Switches > 0
+	if s.Switches > 0 {
+		res.Probe("users_interleaved_inside_lexer_or_parser")
+	}
+	for i, tk := range tasks {
+		what := ""
+		switch {
+		case tk.panicV != nil:
+			what = fmt.Sprintf("crashed: %v at %s", tk.panicV, tk.stack)
+		case got[i].tokens != alone[i].tokens:
+			what = "lexed a different token stream: " + firstLineDiff(alone[i].tokens, got[i].tokens)
+		case got[i].parse != alone[i].parse:
+			what = "got a different parse result: " + firstLineDiff(alone[i].parse, got[i].parse)
+		}
+		if what != "" {
+			key := "C01/interleaved-users:tokens"
+			if tk.panicV != nil {
+				key = "C01/interleaved-users:panic:" + tk.stack
+			} else if got[i].tokens == alone[i].tokens {
+				key = "C01/interleaved-users:parse"
+			}
+			res.Violate("C01/O5-independent-users", key, fmt.Sprintf("%d independent users of the lexer and parser ran interleaved (%s, preemption every %d loop iterations); user %d (%s via %s) %s\ninput of that user:\n%s", n, s, every, i, srcs[i].id, entries[ents[i]].name, what, clipSrc(string(srcs[i].text))))
+			break
+		}
+	}
+	if c.Render {
+		var ids []string
+		for i, sr := range srcs {
+			ids = append(ids, fmt.Sprintf("%s via %s (%d bytes)", sr.id, entries[ents[i]].name, len(sr.text)))
+		}
+		res.Rendering = map[string]any{"mode": "interleaved users", "users": ids, "preempt_every_loop_iterations": every, "schedule": s.String()}
+	}
+}
+
+func firstLineDiff(a, b string) string {
+	la, lb := strings.Split(a, "\n"), strings.Split(b, "\n")
+	for i := 0; i < len(la) || i < len(lb); i++ {
+		var x, y string
+		if i < len(la) {
+			x = la[i]
+		}
+		if i < len(lb) {
+			y = lb[i]
+		}
+		if x != y {
+			return fmt.Sprintf("line %d: alone %q, interleaved %q", i, clipSrc(x), clipSrc(y))
+		}
+	}
+	return "(equal)"
+}
+
 func runC01(c *worker.Ctx) {
 	res := c.Res
-	mode := c.T.Draw(6)
+	mode := c.T.Draw(7)
+	if mode == 6 {
+		if c.T.Bool(1, 6) {
+			runC01Interleaved(c)
+			return
+		}
+		mode = c.T.Draw(6)
+	}
 	var src c01Source
 	var data []byte
 	plan := simio.Plan{Chunk: "all", Terminal: "eof"}
